@@ -1,4 +1,4 @@
-CONSTANT Fam = 0
+CONSTANT Fams = {0, 1}
 CONSTANT Wide = FALSE
 INIT Init
 NEXT Next
